@@ -345,11 +345,11 @@ PREDICTIONS = {"MC_YRotate_pinned.cfg": "AllNew", "MC_YRotate_pinned_rstrip.cfg"
 # family -> (cfg quick, cfg thorough, replay everything up to this many positions in all files together (quick,
 # thorough), budget for the bigger ones (quick, thorough))
 FAMILIES = {
-    "shape":  ("MC_YRotate_q.cfg", "MC_YRotate_t.cfg", (3, 4), (300, 6000)),
-    "marker": ("MC_YRotate_marker.cfg", "MC_YRotate_marker.cfg", (1, 1), (150, 2500)),
+    "shape":  ("MC_YRotate_q.cfg", "MC_YRotate_t.cfg", (3, 4), (300, 4000)),
+    "marker": ("MC_YRotate_marker.cfg", "MC_YRotate_marker.cfg", (1, 1), (150, 1500)),
     "fid":    ("MC_YRotate_fid.cfg", "MC_YRotate_fid3.cfg", (1, 2), (200, 10 ** 9)),
-    "files":  ("MC_YRotate_files.cfg", "MC_YRotate_files3.cfg", (2, 2), (250, 5000)),
-    "boxes":  ("MC_YRotate_boxes.cfg", "MC_YRotate_boxes3.cfg", (2, 2), (200, 5000)),
+    "files":  ("MC_YRotate_files.cfg", "MC_YRotate_files3.cfg", (2, 2), (250, 3000)),
+    "boxes":  ("MC_YRotate_boxes.cfg", "MC_YRotate_boxes3.cfg", (2, 2), (200, 3000)),
 }
 
 
@@ -419,7 +419,7 @@ def build_cases(ctx, rng):
 
 
 def random_cases(ctx, rng, start):
-    n = 400 if ctx.quick else 5000
+    n = 400 if ctx.quick else 4000
     from harness import rotobs as ro
     cases = []
     for i in range(n):
